@@ -305,3 +305,13 @@ Proof.
   induction l as [|s t IH]; cbn; [constructor|]. rewrite andb_true_iff, negb_true_iff. intros [H1 H2].
   constructor; [|now apply IH]. intros Hin. apply slot_mem_In in Hin. congruence.
 Qed.
+
+Lemma accessor_type_iff_semantics : forall scope sfns z,
+  let p := create_cpp_portitf scope sfns z in
+  (zp_sem z = STS -> q_ids (t_fqn (fn_ret (cp_accessor p))) = sfns ++ [L "Sts"] /\ cp_target p = (m_encapsulee ++ L "." ++ po_name (zp_port z))%list /\ cp_member p = None) /\
+  (zp_sem z = MTS -> q_ids (t_fqn (fn_ret (cp_accessor p))) = sfns ++ [L "Mts"] /\ exists m, cp_member p = Some m /\ cp_target p = snd m).
+Proof.
+  intros scope sfns z p. unfold p, create_cpp_portitf. split; intros H; rewrite H.
+  - repeat split; reflexivity.
+  - destruct (zp_mc z); (split; [reflexivity|eexists; split; reflexivity]).
+Qed.
